@@ -154,6 +154,7 @@ func prepare(args []string) {
 		sum.Programs = append(sum.Programs, ps)
 	}
 	ioutil.WriteFile(filepath.Join(e.Run, "programs.sexp"), []byte(model.String()), 0o644)
+	ioutil.WriteFile(filepath.Join(e.Run, "jobs.sexp"), []byte(jobsFor(sum, *tier, *seed)), 0o644)
 	pj, _ := json.Marshal(progs)
 	ioutil.WriteFile(filepath.Join(e.Run, "programs.json"), pj, 0o644)
 	timing["total"] = pipeline.Since(t0)
@@ -170,4 +171,31 @@ func prepare(args []string) {
 	}
 	fmt.Printf("prepared %d programs in %.1fs (tools %.1f generate %.1f compile %.1f): %d plugin failures, %d compile failures\n",
 		len(progs), timing["total"], timing["tools"], timing["generate"], timing["compile"], nfail, ncomp)
+}
+
+// recipeCounts: cases per (program, root) for each recipe.
+var recipeCounts = map[string]map[string]int{
+	"quick":    {"schemacheck": 1, "values": 12, "reset": 8, "malformed": 8, "oneof": 2, "echo": 10, "history": 6, "probe": 1, "hooks": 6},
+	"thorough": {"schemacheck": 1, "values": 120, "reset": 80, "malformed": 80, "oneof": 6, "echo": 100, "history": 40, "probe": 1, "hooks": 30},
+}
+
+var recipeOrder = []string{"schemacheck", "values", "reset", "malformed", "oneof", "echo", "history", "probe", "hooks"}
+
+func jobsFor(sum *Summary, tier string, seed int64) string {
+	counts := recipeCounts[tier]
+	if counts == nil {
+		counts = recipeCounts["quick"]
+	}
+	var b strings.Builder
+	for _, ps := range sum.Programs {
+		if !ps.Linked {
+			continue
+		}
+		for _, root := range ps.Roots {
+			for i, rc := range recipeOrder {
+				fmt.Fprintf(&b, "(job %q %q %q %d %d)\n", ps.ID, root, rc, counts[rc], seed*1000+int64(i))
+			}
+		}
+	}
+	return b.String()
 }
